@@ -4,7 +4,7 @@ cd "$(dirname "$0")/.." || exit 2
 for d in seeded/C??-[0-9] seeded/C??-[0-9][0-9]; do
   [ -d "$d" ] || continue
   idk=$(basename "$d"); id=${idk%-*}; k=${idk#*-}
-  line=$(tools/seedeval.sh "$id" "$k" | tail -1)
+  line=$(tools/seedeval.sh "$id" "$k" | grep "^{" | tail -1)
   echo "$line"
   /venv/bin/python - "$d" "$id" "$line" <<'PY'
 import json, sys, os, datetime
